@@ -40,17 +40,37 @@ SolutionScale(e) ==
   1 + MaxSet({Abs(PolyValue(e.poly[e.comp[d]], e.loc[d], e.S).num) \div PolyValue(e.poly[e.comp[d]], e.loc[d], e.S).den
               : d \in DOMAIN e.loc})
 
+\* ---- strongly graded grids: DOF locations are L / 2^S2 with S2 up to 30 (no common small denominator);
+\* degree <= 1 polynomials are then evaluated in fixed point: c0 + sum_i c_i * (L_i >> S2), exactly (30 fractional
+\* bits fit the 56 of Fx)
+RECURSIVE FxShr(_, _)
+FxShr(a, k) == IF k = 0 THEN a ELSE IF k >= 14 THEN FxShr(FxDivSmall(a, 16384), k - 14) ELSE FxDivSmall(a, 2 ^ k)
+FxSumG(s) == FoldLeft(LAMBDA acc, x : FxAdd(acc, x), FxZero, s)
+TermVar(tm) == CHOOSE i \in DOMAIN tm.e : tm.e[i] = 1
+PolyValueDyadic(pol, L, k) ==
+  FxSumG([j \in DOMAIN pol |-> IF TermDeg(pol[j]) = 0 THEN FxInt(pol[j].c)
+                                ELSE FxMulSmall(FxShr(FxInt(L[TermVar(pol[j])]), k), pol[j].c)])
+ASSUME PolyValueDyadic(<< [c |-> 3, e |-> <<0, 0>>], [c |-> -2, e |-> <<0, 1>>] >>, <<7, 3 * 2 ^ 19>>, 20) = FxRat(0, 1)  \* 3 - 2 * 3/2
+DyadicScale(e) == 1 + MaxSet({ISumG([j \in DOMAIN e.poly[k] |-> Abs(e.poly[k][j].c)]) : k \in DOMAIN e.poly})
+
 SolveWF(e) ==
   /\ e.err = ""
   /\ Len(e.x) = Len(e.loc) /\ Len(e.comp) = Len(e.loc) /\ Len(e.loc) >= 1
-  /\ e.S \in 1..12
+  /\ e.S2 \in 0..30
+  /\ (e.S2 > 0) => /\ \A k \in DOMAIN e.poly : PolyDeg(e.poly[k]) <= 1
+                    /\ \A d \in DOMAIN e.loc : \A i \in DOMAIN e.loc[d] : e.loc[d][i] \in 0..(2 ^ e.S2)
+  /\ e.S \in 1..48
   /\ \A d \in DOMAIN e.loc : /\ FxWF(e.x[d]) /\ e.comp[d] \in DOMAIN e.poly
                              /\ Len(e.loc[d]) = e.dim
   /\ \A k \in DOMAIN e.poly : \A j \in DOMAIN e.poly[k] : Len(e.poly[k][j].e) = e.dim
-  /\ \A k \in DOMAIN e.poly : IPow(e.S, PolyDeg(e.poly[k])) <= 65536
+  /\ (e.S2 = 0) => \A k \in DOMAIN e.poly : IPow(e.S, PolyDeg(e.poly[k])) <= 65536
 
 \* every DOF of the nodal element carries the exact value of the polynomial at its location
 SolutionIsInterpolant(e) ==
+  IF e.S2 > 0
+  THEN LET tol == FxMulSmall(TolSolve, Min2(DyadicScale(e), 16384)) IN       \* the solution is O(1): local scale
+       \A d \in DOMAIN e.loc : FxNear(e.x[d], PolyValueDyadic(e.poly[e.comp[d]], e.loc[d], e.S2), tol)
+  ELSE
   LET tol == FxMulSmall(TolSolve, Min2(SolutionScale(e), 16384)) IN
   \A d \in DOMAIN e.loc :
     LET v == PolyValue(e.poly[e.comp[d]], e.loc[d], e.S) IN
